@@ -27,9 +27,11 @@ For each change write into {out}/<k>/ (k = 1..{n}):
 After producing each patch, restore the worktree with `git -C {wt} checkout -- .` so the next change starts clean, and leave the worktree clean at the end.
 Use /venv/bin/python (it has numpy, pandas, scipy, rapidfuzz, etc.). There is no network. Keep each patch small (a few lines). Do not modify the tests. Finish by replying with a short summary of the {n} changes (file, what, what it needs to manifest) and confirmation that baseline.sh printed 71/71 for each.'''
 
+CAUGHT6 = ''' Also caught since the last round: differently spelled missing cells (None / '' / NaN) between two tables; metric objects whose truth value is False; labels in small integer dtypes; anagram families and clones next to transposed variants; None / 0 / False option values forwarded to callables; one V gene with several alleles; radii one ulp below an attained real-valued distance (isclose-style tolerances); stray max_custom_distance without a custom distance on every engine; isolated sequences with n_cpu > 1; references shorter or longer than the query; pseudocount with singleton groups; ward / centroid / weighted linkage; heavy-tailed exponents close to 1; repeated join keys and indexes named like the key column; (n x 1) column input; stale per-object radius on a reused index object; falsy max_custom_distance (0).'''
 CAUGHT = '''The harness is also known to catch, anywhere in this code base: changed kdtree ball radius (incl. float-rounding variants); any cache (module-level, per-object, lru_cache, memo by `is`) keyed incompletely or returning shared objects; reused worker pools; label-vs-position indexing of pandas objects (Series, tuples of Series, DataFrames, duplicated labels); `is`-identity shortcuts; sampling with replacement, biased or short draws (every answer of numpy.random.choice / randint / rand / shuffle is enumerated); truncation/rounding of non-integer distances; integer overflow/wrap-around at 2^7, 2^8, 2^16, ~55109, ~2.1e6, 2^31, 2^53 for counts, sizes, string lengths, weights and neighbour counts (collections of 128-257, 1001, 1023-1025, 2049, 3001 rows, 10001, 65560 and strings of 127-400 residues are exercised); bytes-vs-characters, NUL, separator characters (| _ . space), non-ASCII letters and non-amino-acid symbols (also first occurring late in a long list); hash collisions; every documented option alone and the interactions normalize x pseudocount, bins=0 x maxseqs, max_returns x output type, max_returns x callable distance, max_returns call followed by a default call, precision x enforce_functional, how=left/inner/outer over 2-4 tables, progress=True x >1000 queries; partial or empty option dictionaries; in-place modification of any argument (lists, arrays, dicts, sets, frames, colormap objects); scribbling on returned objects; shared class-level state; one-shot iterators, dicts, Counters, Index, categorical, bool, tuple-valued, mixed-type and str inputs; falsy column labels; mixed-length and empty references; zeros/unsigned/NaN/missing values in count vectors and feature columns; float labels; repeated or missing node labels; self matches; collections of equal-length sequences, of sequences sharing prefix+suffix, mutational scans and big clones; aspect ratios up to 1x300; asymmetric (ins != del) metrics in every two-collection path and with any (ins,del,sub) in {1,2,3}^3; metric classes with **options; a container re-used with new contents; aborted earlier calls; near-miss spellings of enumerated string options; callables that return int for some pairs and float for others; axes that are not the current axes.'''
 
 AIM = {
+ "7": '''Aim for changes that are HARDER to catch than all of the above but still REALISTIC (a slip or "optimisation" a reviewer could wave through) and that genuinely violate the property statement on inputs the statement covers. Directions that have NOT been tried much: the arguments this library passes to THIRD-PARTY calls (rapidfuzz score_cutoff / score_hint / processor, scipy linkage / fcluster / squareform options, pandas groupby sort / dropna / observed, merge / concat / drop_duplicates / value_counts flags, numpy unique / histogram / argsort kind / searchsorted side) where a different flag only matters for particular data (ties, missing keys, unsorted or duplicated keys, values exactly on an edge, object vs string dtype); results that silently depend on set / dict iteration order or on an unstable sort among ties; a loop that stops one element early only when the number of elements is even / odd or a multiple of a chunk size; state kept on an OBJECT (not a module) between two method calls; an input that is converted once and then used in both its converted and unconverted form. Silent wrong results only (no exceptions), no thresholds at sizes above two thousand, and nothing that needs a narrower integer dtype than int64 for counts.''',
  "6": '''Aim for changes that are HARDER to catch than all of the above but still REALISTIC (a slip or "optimisation" a reviewer could wave through) and that genuinely violate the property statement on inputs the statement covers. Ideas that have NOT been tried much: a change in a SHARED HELPER that is right for most callers but wrong for one public function of this property; two cooperating edits in different functions; a wrong result only when two particular arguments are BOTH non-default; dependence on the ORDER of rows / elements / keyword arguments where the property promises order-independence; a result that is wrong only when a group, bin, cluster or chain is a singleton or when two values tie exactly; numerically plausible results (right to 3 digits) from a reformulated formula that is not algebraically identical; an early-exit "fast path" whose guard is slightly too wide. Silent wrong results only (no exceptions), no thresholds at sizes above a few thousand.''',
 }
 
@@ -51,6 +53,6 @@ for pid, p in props.items():
         if os.path.exists(d + "/note.txt"):
             tried.append("  * " + open(d + "/note.txt").read().strip().replace("\n", " ")[:230])
     extra = "\n\nALREADY TRIED by other people for this property (the harness catches ALL of these - do NOT repeat them or close variants; pick a different site and a different mechanism):\n%s\n%s\n%s\n" % (
-        "\n".join(tried) if tried else "  (none yet)", CAUGHT, AIM.get(rnd, AIM["6"]))
+        "\n".join(tried) if tried else "  (none yet)", CAUGHT + (CAUGHT6 if rnd >= "7" else ""), AIM.get(rnd, AIM["6"]))
     open("/tmp/seedtools/prompts%s/%s.txt" % (rnd, pid), "w").write(T.format(wt=wt, out=out, pid=pid, n=2, **p) + extra)
 print("prompts in /tmp/seedtools/prompts%s:" % rnd, len(os.listdir("/tmp/seedtools/prompts%s" % rnd)))
